@@ -40,6 +40,10 @@ thread_local! {
     static LAST_PANIC: RefCell<Option<(String, u32, String)>> = const { RefCell::new(None) };
     static DECLS: RefCell<Option<Decls>> = const { RefCell::new(None) };
     static LOGBUF: RefCell<String> = const { RefCell::new(String::new()) };
+    /// Debug/Trace records of the `log` facade (only when the world's log level admits them): running digest of
+    /// all the text, number of records, and the first 32 KiB for reports
+    static INCDIR: RefCell<String> = const { RefCell::new(String::new()) };
+    static DBGBUF: RefCell<(Fnv, u32, String)> = RefCell::new((Fnv::new(), 0, String::new()));
     /// (file name as an error would name it, number of lines delivered) for the running job
     static FILE_LINES: RefCell<Vec<(String, u32)>> = const { RefCell::new(Vec::new()) };
 }
@@ -137,13 +141,35 @@ pub fn install_panic_hook() {
 struct SimLogger;
 impl log::Log for SimLogger {
     fn enabled(&self, m: &log::Metadata) -> bool {
-        m.level() <= log::Level::Info
+        m.level() <= log::max_level()
     }
     fn log(&self, r: &log::Record) {
+        use std::fmt::Write;
         if r.level() <= log::Level::Info {
             LOGBUF.with(|b| {
-                use std::fmt::Write;
                 let _ = writeln!(b.borrow_mut(), "[{}] {}", r.level(), r.args());
+            });
+        } else if r.level() <= log::max_level() {
+            // what a user running with RUST_LOG=debug|trace reads: observed as a component of its own
+            // (compared with a reference taken at the same level)
+            let line = format!("[{}] {}\n", r.level(), r.args());
+            // the include directory is an artefact of the simulation
+            let line = INCDIR.with(|d| {
+                let d = d.borrow();
+                if d.is_empty() { line.clone() } else { line.replace(d.as_str(), "$INC") }
+            });
+            DBGBUF.with(|b| {
+                let mut b = b.borrow_mut();
+                b.0.write_str(&line);
+                b.1 += 1;
+                if b.2.len() < 32 * 1024 {
+                    let room = 32 * 1024 - b.2.len();
+                    let mut cut = line.len().min(room);
+                    while !line.is_char_boundary(cut) {
+                        cut -= 1;
+                    }
+                    b.2.push_str(&line[..cut]);
+                }
             });
         }
     }
@@ -387,6 +413,8 @@ pub struct JobResult {
     pub clock_reads: u32,
     pub pid_reads: u32,
     pub include_depth: u32,
+    /// Debug/Trace log text of the job: (digest of all of it, number of records, first 32 KiB)
+    pub dbg: (u64, u32, String),
 }
 
 pub struct WorkerEnv {
@@ -441,6 +469,8 @@ fn run_job(job: &JobSpec, env: &WorkerEnv, sched: &Arc<Sched>, tid: usize, multi
     // noise printed between jobs is not attributed to anybody
     let _ = simenv::drain_diag();
     LOGBUF.with(|b| b.borrow_mut().clear());
+    DBGBUF.with(|b| *b.borrow_mut() = (Fnv::new(), 0, String::new()));
+    INCDIR.with(|d| *d.borrow_mut() = incdir.clone());
     DECLS.with(|d| *d.borrow_mut() = None);
     LAST_PANIC.with(|p| *p.borrow_mut() = None);
     publish_site(tid, "start");
@@ -561,6 +591,10 @@ fn run_job(job: &JobSpec, env: &WorkerEnv, sched: &Arc<Sched>, tid: usize, multi
         clock_reads: clock_reads.0,
         pid_reads: clock_reads.1,
         include_depth: 0,
+        dbg: DBGBUF.with(|b| {
+            let b = b.borrow();
+            (b.0.finish(), b.1, b.2.clone())
+        }),
     }
 }
 
